@@ -468,6 +468,7 @@ func (c *Ctx) internalConst(rule, name string) (int64, bool) {
 func c05Validators(c *Ctx, ms map[string]*fsmx.Machine) {
 	r := c.R
 	r.Rule("C05/R4", "validators: advance only under count(Confirmed) >= N; cancel only under count(Error|Declined) >= 1; timeout only under IsExpired()", 14)
+	c05ExpiredDefinition(c)
 	r.Rule("C05/R7", "master-key validator: a byte mismatch between announced keys emits the cancel event", 2)
 	for _, vs := range c05Validators_ {
 		m := ms[vs.rel]
@@ -1115,4 +1116,54 @@ func respStateAssume(fn *ssa.Function, st string) []ssax.Edge {
 		}
 	}
 	return out
+}
+
+
+// c05ExpiredDefinition: the validators' deadline clause rests on what IsExpired MEANS. The three sibling definitions
+// (invitation, key generation, signing) answer from the two time stamps only — ExpiresAt.Before(UpdatedAt), or the
+// mirrored After — on every return. A definition that also looks at the quorum ("nobody is awaited any more, so it is
+// not expired") lets the answer that completes a phase arrive after the deadline and advance the round.
+func c05ExpiredDefinition(c *Ctx) {
+	r := c.R
+	for _, tn := range []string{"SignatureConfirmation", "DKGConfirmation", "SigningConfirmation"} {
+		fn := c.Fn("C05/R4", "fsm/state_machines/internal", tn, "IsExpired")
+		if fn == nil {
+			continue
+		}
+		why := ""
+		for _, ret := range ssax.Returns(fn) {
+			if len(ret.Results) != 1 {
+				why = "unexpected result count"
+				continue
+			}
+			for _, lf := range ssax.Leaves(ret.Results[0], ret) {
+				call, isCall := ssax.Resolve(lf.V).(*ssa.Call)
+				if !isCall {
+					why = "returns " + ssax.Path(lf.V) + " at " + c.PosOf(ret) + " instead of the comparison of the two time stamps"
+					continue
+				}
+				id := ssax.FuncID(ssax.CalleeObj(call))
+				a := call.Common().Args
+				if len(a) != 2 {
+					why = "unexpected call " + id
+					continue
+				}
+				x, y := ssax.Path(a[0]), ssax.Path(a[1])
+				okBefore := id == "time.(Time).Before" && strings.HasSuffix(x, ".ExpiresAt") && strings.HasSuffix(y, ".UpdatedAt")
+				okAfter := id == "time.(Time).After" && strings.HasSuffix(x, ".UpdatedAt") && strings.HasSuffix(y, ".ExpiresAt")
+				if !okBefore && !okAfter {
+					why = "returns " + ssax.Path(lf.V) + " at " + c.PosOf(ret)
+				}
+			}
+		}
+		// and nothing but the two stamps is consulted
+		ssax.Instrs(fn, func(in ssa.Instruction) {
+			if fa, ok := in.(*ssa.FieldAddr); ok && ssax.FieldOf(fa) != nil {
+				if n := ssax.FieldOf(fa).Name(); n != "ExpiresAt" && n != "UpdatedAt" && why == "" {
+					why = "consults field " + n + " at " + c.PosOf(in)
+				}
+			}
+		})
+		r.Check(why == "", "C05/R4", "internal.("+tn+").IsExpired:definition", "expired means exactly ExpiresAt before UpdatedAt", c.Pos(fn.Pos()), why)
+	}
 }
